@@ -279,8 +279,13 @@ def independent_front_end(ctx, progs, jobs, label='independent-front-end', max_r
 def replay_case(ctx, data):
     """re-run a stored concrete case; prints both behaviours"""
     cfg = data.get('config', {})
-    c = dump_ast.case('r', data['source'], data.get('args', []), w=cfg.get('w', 2), s=cfg.get('stack', 500),
-                      unchecked=cfg.get('unchecked', False))
+    try:
+        c = dump_ast.case('r', data['source'], data.get('args', []), w=cfg.get('w', 2), s=cfg.get('stack', 500),
+                          unchecked=cfg.get('unchecked', False))
+    except Exception as e:
+        # a stored case whose finding is that the compiler refuses (or crashes on) a valid program
+        print('the compiler does not compile this program: %s: %s' % (type(e).__name__, str(e)[:300]))
+        return 1
     if data.get('reference_tree'):
         # the oracle of this case is the typed tree of the verified front-end model, not the real front end's
         c['ast'] = [data['reference_tree'].encode('ascii')]
